@@ -421,7 +421,7 @@ func spaces() (out []*explore.Space) {
 func main() {
 	explore.Main(&explore.Config{
 		Property: "C14", Level: "model_checking",
-		Rule: "a free-running real-time scenario (queue-timing: ten questions keep both workers busy, two callers ask the same question behind them; the server must see it once, never twice at a time) and 9 scenarios (three callers one instant query, also with a failing server; two+one callers with concurrency 1; two callers one sliced range query; config/flags/metadata twice each; server answers ok/503/400 by choice; background cache gc; two upstreams sharing a cache; two range queries whose windows share an aligned slice) run on the real promapi client whose sync primitives, channels and go statements are mechanically replaced by scheduler shims; every schedule within a per-scenario bound is executed, with happens-before state caching: S1 S2 S5 S6 S7 bound the preemptions (quick 1-2, thorough 2-3), S3 S4 S8 (8-10 threads) bound all departures from the default schedule (quick 2, thorough 3); monitors on every request: no identical requests in flight, in-flight <= concurrency, no repeat within the cache lifetime, equal results for equal questions, no deadlock, Close returns, every goroutine finishes",
+		Rule: "a free-running real-time scenario (queue-timing: 16-18 questions keep both workers busy, two callers ask the same question behind them; the server must see it once, never twice at a time) and 9 scenarios (three callers one instant query, also with a failing server; two+one callers with concurrency 1; two callers one sliced range query; config/flags/metadata twice each; server answers ok/503/400 by choice; background cache gc; two upstreams sharing a cache; two range queries whose windows share an aligned slice) run on the real promapi client whose sync primitives, channels and go statements are mechanically replaced by scheduler shims; every schedule within a per-scenario bound is executed, with happens-before state caching: S1 S2 S5 S6 S7 bound the preemptions (quick 1-2, thorough 2-3), S3 S4 S8 (8-10 threads) bound all departures from the default schedule (quick 2, thorough 3); monitors on every request: no identical requests in flight, in-flight <= concurrency, no repeat within the cache lifetime, equal results for equal questions, no deadlock, Close returns, every goroutine finishes",
 		Assumptions: []string{
 			"scheduling points: mutex/rwmutex lock, cond wait/signal/broadcast, waitgroup wait, channel send/recv/close, thread start, context cancel, HTTP request arrival and response; pure releases are not points",
 			"unsynchronised accesses are outside this engine: the same scenarios run free under -race in the supplementary pass",
